@@ -52,6 +52,7 @@ Qed.
 Lemma C_put_task t tk : C (put_task t tk). Proof. intros w. constructor; auto. Qed.
 Lemma C_put_inst i x : C (put_inst i x). Proof. intros w. constructor; auto. Qed.
 Lemma C_set_collectors c : C (set_collectors c). Proof. intros w. constructor; auto. Qed.
+Lemma C_ghost g : C (ghost g). Proof. intros w. constructor; auto. Qed.
 Lemma C_set_tasks c : C (set_tasks c). Proof. intros w. constructor; auto. Qed.
 Lemma C_set_next_id c : C (set_next_id c). Proof. intros w. constructor; auto. Qed.
 Lemma C_call_soon h : C (call_soon h). Proof. intros w. constructor; auto. Qed.
@@ -119,8 +120,8 @@ Lemma C_sleep_done t : C (sleep_done t).
 Proof. intros w. unfold sleep_done. destruct (get_task t w) as [tk|]; [|apply cext_refl]. destruct (tk_done tk); [apply cext_refl|]. eapply cext_trans; [apply C_put_task|apply C_call_soon]. Qed.
 Lemma C_queue_send e d : C (queue_send e d).
 Proof.
-  intros w0. unfold queue_send. apply (cext_trans _ (ghost (GQueue e d) w0)); [apply C_neutral, n_ghost|]. generalize (ghost (GQueue e d) w0). clear w0.
-  intros w. unfold queue_core. destruct (t_collect (cfg w) =? 0); [eapply cext_trans; [apply C_neutral, n_ghost|apply C_neutral, n_send_sd]|].
+  intros w0. unfold queue_send. apply (cext_trans _ (ghost (GQueue e d) w0)); [apply C_ghost|]. generalize (ghost (GQueue e d) w0). clear w0.
+  intros w. unfold queue_core. destruct (t_collect (cfg w) =? 0); [eapply cext_trans; [apply C_ghost|apply C_neutral, n_send_sd]|].
   match goal with |- cext w (match ?o with Some _ => _ | None => _ end) => destruct o as [[c co]|] end; [apply C_set_collectors|].
   destruct (call_later (t_collect (cfg w)) (HCollector (next_id w)) w) as [tid w1] eqn:Ec.
   assert (w1 = snd (call_later (t_collect (cfg w)) (HCollector (next_id w)) w)) as -> by (rewrite Ec; reflexivity).
@@ -129,7 +130,7 @@ Qed.
 Lemma C_collector_timeout c : C (collector_timeout c).
 Proof.
   intros w. unfold collector_timeout. destruct (aget N.eqb c (collectors w)); [|apply cext_refl].
-  eapply cext_trans; [|apply C_neutral, n_send_sd]. eapply cext_trans; [apply C_neutral, n_ghost|apply C_set_collectors].
+  eapply cext_trans; [|apply C_neutral, n_send_sd]. eapply cext_trans; [apply C_ghost|apply C_set_collectors].
 Qed.
 
 (* ---- composite functions *)
@@ -304,9 +305,10 @@ Lemma C_message_received m a mc : C (message_received m a mc).
 Proof.
   intros w. unfold message_received. destruct (negb (is_sd_message m)); [apply cext_refl|].
   destruct (parse_sd (m_payload m)) as [[h r]|]; [|apply cext_refl].
-  destruct (check_received (sess w) a mc (sd_reboot h) (m_sess m)) as [rb s'].
+  pose proof (n_set_sess_rx w a mc (sd_reboot h) (m_sess m)) as Hrx.
+  destruct (check_received (sess w) a mc (sd_reboot h) (m_sess m)) as [rb s']. cbn [snd] in Hrx.
   assert (H2 : cext w (if rb then reboot_detected a (set_sess s' w) else set_sess s' w)).
-  { destruct rb; [eapply cext_trans; [apply C_neutral, n_set_sess|apply C_reboot_detected]|apply C_neutral, n_set_sess]. }
+  { destruct rb; [eapply cext_trans; [apply same_cext; exact Hrx|apply C_reboot_detected]|apply same_cext; exact Hrx]. }
   destruct (resolve_sd h); [eapply cext_trans; [exact H2|apply C_sd_message_received]|exact H2].
 Qed.
 Lemma C_datagram_received data a mc : C (datagram_received data a mc).
